@@ -134,3 +134,16 @@ def run(ctx: Ctx):
     # the detected name is stored as key of self.parameters
     st = [n for n in ast.walk(det[0]) if isinstance(n, ast.Assign) and isinstance(n.targets[0], ast.Subscript)]
     ctx.check(len(st) == 1 and norm(st[0].targets[0].slice).endswith(".arg"), "SB-TWIN", ff, "parameters are recorded under the argument's name", norm(st[0])[:60] if st else "", "the parameter table is not keyed by argument name", det[0])
+    ctx.section(check_modmask, ctx)
+
+
+def check_modmask(ctx: Ctx):
+    """exact, over the modules this property is anchored in"""
+    n = 0
+    for fi in ctx.repo.functions.values():
+        if fi.parent is not None or not any(fi.module.name.startswith(x) for x in ['qlasskit.qlassfun', 'qlasskit.types.parameter']):
+            continue
+        for site in q.modulo_by_mask_sites(fi.node):
+            n += 1
+            ctx.fail("SB-MODMASK", fi, f"`{norm(site)[:50]}`", f"`{norm(site)}` reduces a value with the all-ones mask as MODULUS: the largest value of that width ((1 << n) - 1) becomes 0; the modulus for n bits is 2**n (or use `& mask`)", site)
+    ctx.ok("SB-MODMASK", None, "no value is reduced modulo an all-ones mask", f"{n} sites", construct="qlassfun")
